@@ -81,7 +81,7 @@ Uploaded(s, d) ==
 Failed(s, d) ==
   /\ up[s][d] = "started"
   /\ up' = [up EXCEPT ![s][d] = "failed"]
-  /\ IF subscribed /\ s = "me" /\ AddrKnown
+  /\ IF subscribed /\ s = "me" /\ AddrKnown /\ d \in attempted     \* (only a directory whose upload the client saw start counts)
      THEN /\ failed' = failed \cup {d}
           /\ IF wait = "p" /\ (failed \cup {d}) = attempted THEN Resolve("err")
              ELSE IF wait = "p" /\ mode = "all" /\ confirmed # {} /\ AllIn(confirmed, failed \cup {d}, attempted) THEN Resolve("ok")
@@ -89,9 +89,16 @@ Failed(s, d) ==
      ELSE UNCHANGED failed /\ Keep
   /\ UNCHANGED <<mode, replied, early, hostEarly, attempted, confirmed, devUsed>>
 
+\* Tor reports a failed *fetch* of a service's descriptor (somebody using this Tor looked the address up before it
+\* was published) with the same event word: FAILED s d for a directory no upload was announced to.  It is not an
+\* upload and decides nothing.
+FetchFailed(s, d) ==
+  /\ up[s][d] = "none"
+  /\ UNCHANGED vars
+
 Next ==
   \/ Reply
-  \/ \E s \in Svcs, d \in Dirs : Upload(s, d) \/ Uploaded(s, d) \/ Failed(s, d)
+  \/ \E s \in Svcs, d \in Dirs : Upload(s, d) \/ Uploaded(s, d) \/ Failed(s, d) \/ FetchFailed(s, d)
 
 Spec == Init /\ [][Next]_vars
 
@@ -120,6 +127,8 @@ AwaitAllAtCompletion ==
   [][(wait = "p" /\ wait' = "ok" /\ mode = "all" /\ Regular /\ devUsed' = {}) => OwnStarted' = {} /\ OwnOk' # {}]_vars
 FailsOnlyIfAllFailed ==
   [][(wait = "p" /\ wait' = "err" /\ Regular /\ devUsed' = {}) => OwnOk' = {} /\ OwnStarted' = {}]_vars
+\* a failure is the failure of at least one upload of this service (in every history)
+FailureNeedsFailedUpload == [][(wait = "p" /\ wait' = "err") => OwnFailed' # {}]_vars
 \* events of the other service never decide the outcome
 ForeignInert ==
   [][\A d \in Dirs : (up'["other"] # up["other"] /\ devUsed' = {}) => wait' = wait]_vars
